@@ -63,6 +63,22 @@ tsql_dialect.sets("future_reserved_keywords").clear()
 tsql_dialect.sets("datatype_methods").clear()
 tsql_dialect.sets("reserved_keywords").update(RESERVED_KEYWORDS)
 tsql_dialect.sets("unreserved_keywords").update(UNRESERVED_KEYWORDS)
+
+# Keywords which grammar elements of this dialect (including inherited
+# ones) refer to, but which are in neither keyword set.
+tsql_dialect.sets("unreserved_keywords").update(
+    [
+        "APPEND",
+        "BASE64",
+        "MARK",
+        "MASKING",
+        "NOCACHE",
+        "NOCYCLE",
+        "NOORDER",
+        "OBJECT_ID",
+        "VIEWS",
+    ]
+)
 tsql_dialect.sets("future_reserved_keywords").update(FUTURE_RESERVED_KEYWORDS)
 tsql_dialect.sets("datatype_methods").update(DATATYPE_METHODS)
 
